@@ -110,6 +110,8 @@ def generate_anomalous_data(
     """
     if isinstance(anomalies, tuple):
         anomalies = [anomalies]
+    if len(anomalies) == 0:
+        raise ValueError("At least one anomaly must be given.")
     if isinstance(means, Number):
         means = [means]
     if isinstance(variances, Number):
